@@ -29,6 +29,7 @@ func New() keymanage.Algorithm {
 }
 
 var a128kw = &Algorithm{
+	name: jwa.ECDH_ES_A128KW,
 	size: 16,
 	alg:  akw.New128(),
 }
@@ -39,6 +40,7 @@ func NewA128KW() keymanage.Algorithm {
 }
 
 var a192kw = &Algorithm{
+	name: jwa.ECDH_ES_A192KW,
 	size: 24,
 	alg:  akw.New192(),
 }
@@ -49,6 +51,7 @@ func NewA192KW() keymanage.Algorithm {
 }
 
 var a256kw = &Algorithm{
+	name: jwa.ECDH_ES_A256KW,
 	size: 32,
 	alg:  akw.New256(),
 }
@@ -68,12 +71,30 @@ func init() {
 var _ keymanage.Algorithm = (*Algorithm)(nil)
 
 type Algorithm struct {
+	// name is the "alg" Header Parameter value of Key Agreement with Key Wrapping mode.
+	// It is empty in Direct Key Agreement mode.
+	name jwa.KeyManagementAlgorithm
 	size int
 	alg  keymanage.Algorithm
 }
 
+// algorithmID returns the AlgorithmID value of Concat KDF
+// defined in RFC 7518 Section 4.6.2. Key Derivation for ECDH Key Agreement.
+func (alg *Algorithm) algorithmID(enc jwa.EncryptionAlgorithm) []byte {
+	if alg.name != "" {
+		// Key Agreement with Key Wrapping
+		return []byte(alg.name)
+	}
+	// Direct Key Agreement
+	return []byte(enc)
+}
+
 type encryptionGetter interface {
 	Encryption() jwa.EncryptionAlgorithm
+}
+
+type encryptionAlgorithmGetter interface {
+	EncryptionAlgorithm() jwa.EncryptionAlgorithm
 }
 
 type ephemeralPublicKeyGetter interface {
@@ -134,7 +155,7 @@ func (w *KeyWrapper) UnwrapKey(data []byte, opts any) ([]byte, error) {
 		size = cekSize
 	}
 	key, err := deriveECDHES(
-		[]byte(enc),
+		w.alg.algorithmID(enc),
 		apu,
 		apv,
 		w.priv,
@@ -162,7 +183,7 @@ func (w *KeyWrapper) DeriveKey(opts any) (cek, encryptedCEK []byte, err error) {
 		size = cekSize
 	}
 	key, err := deriveECDHES(
-		[]byte(enc),
+		w.alg.algorithmID(enc),
 		apu,
 		apv,
 		w.priv,
@@ -185,9 +206,13 @@ func (w *KeyWrapper) DeriveKey(opts any) (cek, encryptedCEK []byte, err error) {
 }
 
 func getParams(opts any) (enc jwa.EncryptionAlgorithm, epk *jwk.Key, apu, apv []byte, err error) {
-	enc0, ok := opts.(encryptionGetter)
-	if !ok {
-		err = fmt.Errorf("ecdhes: method Encryption not found")
+	switch enc0 := opts.(type) {
+	case encryptionAlgorithmGetter:
+		enc = enc0.EncryptionAlgorithm()
+	case encryptionGetter:
+		enc = enc0.Encryption()
+	default:
+		err = fmt.Errorf("ecdhes: method EncryptionAlgorithm not found")
 		return
 	}
 	epk0, ok := opts.(ephemeralPublicKeyGetter)
@@ -198,14 +223,19 @@ func getParams(opts any) (enc jwa.EncryptionAlgorithm, epk *jwk.Key, apu, apv []
 	apu0, ok := opts.(agreementPartyUInfoGetter)
 	if !ok {
 		err = fmt.Errorf("ecdhes: method AgreementPartyUInfo not found")
+		return
 	}
 	apv0, ok := opts.(agreementPartyVInfoGetter)
 	if !ok {
 		err = fmt.Errorf("ecdhes: method AgreementPartyVInfo not found")
+		return
 	}
 
-	enc = enc0.Encryption()
 	epk = epk0.EphemeralPublicKey()
+	if epk == nil {
+		err = fmt.Errorf("ecdhes: the ephemeral public key is missing")
+		return
+	}
 	apu = apu0.AgreementPartyUInfo()
 	apv = apv0.AgreementPartyVInfo()
 	return
